@@ -13,3 +13,16 @@ PROPS = {
         assumptions=COMMON_ASSUME + ["double-SHA256 is a parameter of the Base58Check theorems (only its 32-byte output length is used)"],
     ),
 }
+
+_addr_note = ("Trusted: Lean kernel + propext/Classical.choice/Quot.sound; SHA-256/RIPEMD-160/secp256k1 are parameters in theorems "
+              "and lean/Bch/Prim in the driver; Go runtime; chaincfg network table (re-read every run into Generated/Facts.lean). "
+              "Modelled not verified: strings.EqualFold (as ASCII folding; justified in Model/Address.lean), encoding/hex, bchec.ParsePubKey.")
+PROPS["C01"] = dict(
+    level_text="Kernel-checked Lean theorems about an executable model of address.go (CashAddr codec, the six address kinds, the DecodeAddress cascade); the model is compared with the real code on every run over all kinds x nets x renderings, including an exhaustive single-bit sweep.",
+    level_note=_addr_note, assumptions=COMMON_ASSUME)
+PROPS["C02"] = dict(
+    level_text="Kernel-checked Lean theorems (canonicity, rejection lemmas) about the same model as C01; correspondence on near-valid strings with recomputed checksums (all 256 version bytes x payload lengths, padding bits, foreign prefixes, Base58Check over all versions, hex public keys).",
+    level_note=_addr_note, assumptions=COMMON_ASSUME)
+PROPS["C03"] = dict(
+    level_text="Kernel-checked linearity + lifting theorems over the polymod step functions; the finite independence enumeration is evaluated by compiled code (see level_note); correspondence on chosen-syndrome words and random <=5 / <=4 substitutions.",
+    level_note=_addr_note, assumptions=COMMON_ASSUME)
